@@ -28,6 +28,9 @@ type VerifSimGroupReq struct {
 	IssuedGen    int32
 	// sync answer: partitions assigned to the real member by "topic" -> partitions
 	Assigned map[string][]int32
+	// multi-member coordinator: client id of the connection, and when a held join / sync was answered
+	ClientID    string
+	AnsweredSeq int
 }
 
 type simGroup struct {
